@@ -162,8 +162,8 @@ func processFetchForMessage(deps ServerDeps, conn net.Conn, messageID, uid int64
 	}
 
 	itemsUpper := strings.ToUpper(items)
+	// Every data item is appended together with its own value, so that a literal always follows its item name
 	responseParts := []string{}
-	var literalData string // Store literal data separately
 
 	if strings.Contains(itemsUpper, "UID") {
 		responseParts = append(responseParts, fmt.Sprintf("UID %d", uid))
@@ -357,16 +357,12 @@ func processFetchForMessage(deps ServerDeps, conn net.Conn, messageID, uid int64
 					if payload == "" {
 						responseParts = append(responseParts, fmt.Sprintf("BODY[%s] NIL", sectionSpec))
 					} else {
-						if literalData != "" {
-							literalData += " "
-						}
 						// Include partial start position in response if this was a partial fetch
 						if partialStartPos >= 0 {
-							responseParts = append(responseParts, fmt.Sprintf("BODY[%s]<%d>", sectionSpec, partialStartPos))
+							responseParts = append(responseParts, fmt.Sprintf("BODY[%s]<%d> %s", sectionSpec, partialStartPos, literal(payload)))
 						} else {
-							responseParts = append(responseParts, fmt.Sprintf("BODY[%s]", sectionSpec))
+							responseParts = append(responseParts, fmt.Sprintf("BODY[%s] %s", sectionSpec, literal(payload)))
 						}
-						literalData += fmt.Sprintf("{%d}\r\n%s", len(payload), payload)
 					}
 				}
 			}
@@ -451,8 +447,7 @@ func processFetchForMessage(deps ServerDeps, conn net.Conn, messageID, uid int64
 		headersStr += "\r\n" // Final blank line
 		// Match the exact format the client requested
 		fieldList := strings.Join(requestedHeaders, " ")
-		responseParts = append(responseParts, fmt.Sprintf("BODY[HEADER.FIELDS (%s)]", fieldList))
-		literalData = fmt.Sprintf("{%d}\r\n%s", len(headersStr), headersStr)
+		responseParts = append(responseParts, fmt.Sprintf("BODY[HEADER.FIELDS (%s)] %s", fieldList, literal(headersStr)))
 	}
 
 	// Handle BODY.PEEK[TEXT] or BODY[TEXT] - message body only (can be combined with other parts)
@@ -485,11 +480,7 @@ func processFetchForMessage(deps ServerDeps, conn net.Conn, messageID, uid int64
 			}
 		}
 
-		if literalData != "" {
-			literalData += " "
-		}
-		responseParts = append(responseParts, "BODY[TEXT]")
-		literalData += fmt.Sprintf("{%d}\r\n%s", len(body), body)
+		responseParts = append(responseParts, "BODY[TEXT] "+literal(body))
 	}
 
 	// Handle BODY.PEEK[HEADER] or BODY[HEADER] - all headers (check it's not HEADER.FIELDS)
@@ -501,11 +492,7 @@ func processFetchForMessage(deps ServerDeps, conn net.Conn, messageID, uid int64
 		if headerEnd != -1 {
 			headers = msg[:headerEnd+2] // include last CRLF
 		}
-		if literalData != "" {
-			literalData += " "
-		}
-		responseParts = append(responseParts, "BODY[HEADER]")
-		literalData += fmt.Sprintf("{%d}\r\n%s", len(headers), headers)
+		responseParts = append(responseParts, "BODY[HEADER] "+literal(headers))
 	}
 
 	// Handle RFC822.HEADER - return only the header portion
@@ -516,11 +503,7 @@ func processFetchForMessage(deps ServerDeps, conn net.Conn, messageID, uid int64
 		if headerEnd != -1 {
 			headers = msg[:headerEnd+2] // include last CRLF
 		}
-		if literalData != "" {
-			literalData += " "
-		}
-		responseParts = append(responseParts, "RFC822.HEADER")
-		literalData += fmt.Sprintf("{%d}\r\n%s", len(headers), headers)
+		responseParts = append(responseParts, "RFC822.HEADER "+literal(headers))
 	}
 
 	// Handle RFC822.TEXT - body text only (excluding headers)
@@ -531,11 +514,7 @@ func processFetchForMessage(deps ServerDeps, conn net.Conn, messageID, uid int64
 		if headerEnd != -1 {
 			body = msg[headerEnd+4:] // skip the double CRLF
 		}
-		if literalData != "" {
-			literalData += " "
-		}
-		responseParts = append(responseParts, "RFC822.TEXT")
-		literalData += fmt.Sprintf("{%d}\r\n%s", len(body), body)
+		responseParts = append(responseParts, "RFC822.TEXT "+literal(body))
 	}
 
 	// Handle BODY[] / BODY.PEEK[] / RFC822 / RFC822.PEEK - full message
@@ -544,24 +523,19 @@ func processFetchForMessage(deps ServerDeps, conn net.Conn, messageID, uid int64
 		(strings.Contains(itemsUpper, "RFC822") && !strings.Contains(itemsUpper, "RFC822.SIZE") &&
 			!strings.Contains(itemsUpper, "RFC822.HEADER") && !strings.Contains(itemsUpper, "RFC822.TEXT") && !strings.Contains(itemsUpper, "RFC822.PEEK")) {
 		msg := loadRawMsg()
-		if literalData != "" {
-			literalData += " "
-		}
-		responseParts = append(responseParts, "BODY[]")
-		literalData += fmt.Sprintf("{%d}\r\n%s", len(msg), msg)
+		responseParts = append(responseParts, "BODY[] "+literal(msg))
 	}
 
 	if len(responseParts) > 0 {
-		responseStr := fmt.Sprintf("* %d FETCH (%s", seqNum, strings.Join(responseParts, " "))
-		if literalData != "" {
-			responseStr += " " + literalData + ")"
-		} else {
-			responseStr += ")"
-		}
-		deps.SendResponse(conn, responseStr)
+		deps.SendResponse(conn, fmt.Sprintf("* %d FETCH (%s)", seqNum, strings.Join(responseParts, " ")))
 	} else {
 		deps.SendResponse(conn, fmt.Sprintf("* %d FETCH (FLAGS ())", seqNum))
 	}
+}
+
+// literal formats data as an IMAP literal: {octet count} CRLF octets
+func literal(data string) string {
+	return fmt.Sprintf("{%d}\r\n%s", len(data), data)
 }
 
 // extractBodySectionByPath extracts a nested MIME body section using a part path like [1, 2] for part 1.2
